@@ -220,8 +220,21 @@ def chaining_specs():
                raises={'StopIteration': 'len(B) == 0 and len(R) == 0 and len(C) == 0'},
                refuses=[('empty', 'len(B) == 0 and len(R) == 0 and len(C) == 0')], accepts=[('pending', 'len(B) > 0 or len(R) > 0 or len(C) > 0')],
                modifies=['self._back', 'self._sent', 'self._iter', 'self._chain'], hints=CHAIN_HINTS, returns='Int')
-    chain.replay, nxt.replay = replay_chaining('chain'), replay_chaining('__next__')
-    return [chain, nxt, Custom('lemma', flat_lemma, note='induction behind chaining.chain: inserting in front of the list appends to the flattened pending input')]
+    push = peeking_specs()[0]
+    cpeek = Spec('chaining.peek', (F, 'peeking.peek'), params={}, fields=CHAIN_FIELDS, cls_name='chaining', defs=defs,
+                 ensures=[('returns the symbol that next() would deliver, or None when nothing is pending (chained blocks included)',
+                           'result == (B[len(B) - 1] if len(B) > 0 else (R[0] if len(R) > 0 else (C[0] if len(C) > 0 else None)))'),
+                          ('sent unchanged: looking ahead consumes nothing, also across the boundary of a chained block', 'self._sent == old(self._sent)'),
+                          ('the pending stream is unchanged (a peeked symbol is parked on the push-back stack)',
+                           'implies(len(B) > 0, self._back == B and rest(self._iter) == R and flat(self._chain) == C) and '
+                           'implies(len(B) == 0 and len(R) > 0, self._back == [R[0]] and rest(self._iter) == R[1:] and flat(self._chain) == C) and '
+                           'implies(len(B) == 0 and len(R) == 0 and len(C) > 0, self._back == [C[0]] and rest(self._iter) + flat(self._chain) == C[1:]) and '
+                           'implies(len(B) == 0 and len(R) == 0 and len(C) == 0, len(self._back) == 0 and len(rest(self._iter)) == 0 and len(flat(self._chain)) == 0)')],
+                 raises={}, modifies=['self._back', 'self._sent', 'self._iter', 'self._chain'],
+                 callees={'chaining.__next__': nxt, 'push': push, 'peeking.push': push}, hints=CHAIN_HINTS,
+                 note='the inherited peeking.peek on a chaining source: next(self) is chaining.__next__ (by its contract)')
+    chain.replay, nxt.replay, cpeek.replay = replay_chaining('chain'), replay_chaining('__next__'), replay_chaining('peek')
+    return [chain, nxt, cpeek, Custom('lemma', flat_lemma, note='induction behind chaining.chain: inserting in front of the list appends to the flattened pending input')]
 
 
 def replay_chaining(method):
@@ -237,6 +250,9 @@ def replay_chaining(method):
             if method == 'chain':
                 out = ('return', c.chain([41, 42]))
                 want_pending, want_sent, want_res = pending + [41, 42], sent, None
+            elif method == 'peek':
+                out = ('return', c.peek())
+                want_pending, want_sent, want_res = pending, sent, (pending[0] if pending else None)
             else:
                 out = ('return', next(c))
                 want_pending, want_sent, want_res = pending[1:], sent + 1, (pending[0] if pending else None)
@@ -348,7 +364,7 @@ def replay_remembering(method):
 
 
 def remembering_specs():
-    chain, nxt, _ = chaining_specs()
+    chain, nxt = chaining_specs()[:2]
     push = peeking_specs()[0]
     forget = Spec('remembering.forget', (F, 'remembering.forget'), params={}, fields=REM_FIELDS,
                   ensures=[('memory cleared', 'len(self.memory) == 0'),
